@@ -730,7 +730,7 @@ static Json det_random_case(int present) {
     const int fft_len = 1 << int(std::ceil(std::log2(2.0 * nh)));
     const int frame_guess = fft_len - nh + 1;
     const int off = oc == 0 ? 0 : oc == 1 ? frame_guess - 1 : oc == 2 ? pick(0, nh - 1) : pick(0, frame_guess - 1);
-    return Json::object().set("nh", nh).set("type", pick(0, P_NTYPES - 1)).set("thr", thr).set("a_db", pickd(-35.0, 35.0)).set("snr_db", pickd(20.0, 100.0)).set("off", off)
+    return Json::object().set("nh", nh).set("type", pick(0, P_NTYPES - 1)).set("thr", thr).set("a_db", pick(0, 2) != 0 ? pickd(-35.0, 35.0) : flip() ? pickd(-120.0, -35.0) : pickd(35.0, 120.0)).set("snr_db", pickd(20.0, 100.0)).set("off", off)
       .set("lead", pick(0, 4)).set("tail", pick(0, 4)).set("chunk", pick(1, 3)).set("vary", flip() ? (long long)(1 + pick64(0, 1 << 30)) : 0LL).set("bad", pick(0, 3) == 0 ? (long long)(1 + pick64(0, 1 << 30)) : 0LL).set("present", present).set("seed", (long long)seed64());
 }
 
